@@ -218,7 +218,7 @@ func (e *Engine) callFunc(st *State, instr ssa.Instruction, fn *ssa.Function, ar
 		}
 	}
 	if isErrCtor(name) {
-		k(st, e.errCtor(st, fn, args))
+		k(st, e.errCtor(st, fn, args, instr))
 		return
 	}
 	if fn.Pkg != nil || fn.Origin() != nil {
@@ -239,7 +239,7 @@ func (e *Engine) callFunc(st *State, instr ssa.Instruction, fn *ssa.Function, ar
 			return
 		}
 		if isErrCtor(name) {
-			k(st, e.errCtor(st, fn, args))
+			k(st, e.errCtor(st, fn, args, instr))
 			return
 		}
 		e.unmodelled(st, name)
